@@ -17,7 +17,6 @@ package internal
 import (
 	"errors"
 	"iter"
-	"maps"
 	"net/http"
 	"net/textproto"
 	"strconv"
@@ -118,7 +117,17 @@ func directivesSeq2(s string) iter.Seq2[string, string] {
 // parseDirectives parses a string of cache directives and returns a map
 // where the keys are the directive names and the values are the arguments.
 func parseDirectives(s string) map[string]string {
-	return maps.Collect(directivesSeq2(s))
+	m := make(map[string]string)
+	for key, value := range directivesSeq2(s) {
+		// A directive given twice: the later occurrence is used, except that an
+		// unqualified no-cache (the stricter form) is never relaxed by a
+		// qualified one: 'no-cache, no-cache="f"' still demands validation.
+		if prev, dup := m[key]; dup && key == "no-cache" && ParseQuotedString(prev) == "" {
+			continue
+		}
+		m[key] = value
+	}
+	return m
 }
 
 // cacheControlValue returns the combined value of all Cache-Control field
